@@ -305,7 +305,36 @@ async fn run_helper_case(l: &[Val]) -> Val {
     let mut session: Option<PeerSession> = None;
     let mut sources: Vec<(Arc<table::Source>, i128)> = Vec::new();
     let mut generation: i128 = 0;
-    let mut admin_down = false;
+    {
+        let mut params = PeerParams {
+            remote_addr: addr,
+            remote_port: Global::BGP_PORT,
+            expected_remote_asn: 0,
+            local_asn: 0,
+            passive: true,
+            rs_client: false,
+            route_reflector: RouteReflectorConfig::default(),
+            delete_on_disconnected: false,
+            admin_down: false,
+            state: SessionState::Idle,
+            holdtime: PeerParams::DEFAULT_HOLD_TIME,
+            connect_retry_time: PeerParams::DEFAULT_CONNECT_RETRY_TIME,
+            multihop_ttl: None,
+            ttl_security: None,
+            password: None,
+            families: FnvHashMap::default(),
+            send_max: FnvHashMap::default(),
+            prefix_limits: FnvHashMap::default(),
+            graceful_restart: None,
+            llgr: None,
+            bfd_config: None,
+            neighbor_interface: None,
+            bind_interface: None,
+            export_policy: None,
+        };
+        params.passive = true;
+        global.write().await.add_peer(params, None).expect("add_peer");
+    }
     let mut obs = Vec::new();
     for ev in l[1].list() {
         let e = ev.list();
@@ -401,51 +430,17 @@ async fn run_helper_case(l: &[Val]) -> Val {
             }
             3 => {
                 if let Some(mut s) = session.take() {
-                    // the disconnect block of session_loop()
-                    let shutdown_reason = Some(reason_of(e[1].int()));
-                    let mut disconnect = DisconnectInfo {
+                    // the end of session_loop(): the real PeerSession::teardown(), then the
+                    // rest of run() (apply_disconnect)
+                    let disconnect = DisconnectInfo {
                         role: s.role,
                         remote_addr: s.remote_addr,
                         export_map: ExportMap::default(),
                         negotiated_gr: None,
                         negotiated_llgr: None,
                     };
-                    // eligibility first (gr_on_disconnect, the LLGR rule, admin-down) ...
-                    if !admin_down {
-                        disconnect.negotiated_gr = s
-                            .negotiated_gr
-                            .take()
-                            .and_then(|gr| gr_on_disconnect(&shutdown_reason, gr));
-                        if disconnect.negotiated_gr.is_some()
-                            || matches!(
-                                shutdown_reason,
-                                None | Some(crate::fsm::SessionDownReason::IoError)
-                            )
-                        {
-                            disconnect.negotiated_llgr = s.negotiated_llgr.take();
-                        }
-                    }
-                    // ... then the kept / stale-marked families are derived from the result
-                    if !s.source.is_empty() {
-                        let drop_families = families_to_drop_on_disconnect(
-                            s.source.keys(),
-                            disconnect.negotiated_gr.as_ref(),
-                            disconnect.negotiated_llgr.as_ref(),
-                        );
-                        let mut stale_families: Vec<Family> = disconnect
-                            .negotiated_gr
-                            .as_ref()
-                            .map(|g| g.families.clone())
-                            .unwrap_or_default();
-                        if let Some(llgr) = disconnect.negotiated_llgr.as_ref() {
-                            for (f, _) in &llgr.families {
-                                if !stale_families.contains(f) {
-                                    stale_families.push(*f);
-                                }
-                            }
-                        }
-                        s.tables.unregister_peer(s.remote_addr, &drop_families, &stale_families);
-                    }
+                    let disconnect =
+                        s.teardown(&global, Some(reason_of(e[1].int())), disconnect).await;
                     apply_disconnect(&context, addr, &tables, disconnect).await;
                 }
             }
@@ -493,7 +488,8 @@ async fn run_helper_case(l: &[Val]) -> Val {
                 context.lock().unwrap().force_down(CloseReason::Silent, false);
             }
             8 => {
-                admin_down = e[1].bool();
+                // disable_peer / enable_peer set this field of the Peer record
+                global.write().await.peers.get_mut(&addr).unwrap().admin_down = e[1].bool();
             }
             t => panic!("verif: bad helper event {}", t),
         }
@@ -533,6 +529,25 @@ async fn run_helper_case(l: &[Val]) -> Val {
             }
         }
         routes.sort();
+        // what apply_outputs negotiated for the live session (negotiate_gr / negotiate_llgr)
+        let neg = match session.as_ref() {
+            None => Val::L(vec![]),
+            Some(s) => Val::L(vec![
+                Val::opt(s.negotiated_gr.as_ref().map(|g| {
+                    Val::L(vec![
+                        Val::L(g.families.iter().map(|f| Val::I(fam_code(f))).collect()),
+                        Val::n(g.restart_time.as_secs()),
+                        Val::b(g.notification_enabled),
+                    ])
+                })),
+                Val::opt(s.negotiated_llgr.as_ref().map(|l| {
+                    Val::L(l.families
+                        .iter()
+                        .map(|(f, d)| Val::L(vec![Val::I(fam_code(f)), Val::n(d.as_secs())]))
+                        .collect())
+                })),
+            ]),
+        };
         obs.push(Val::L(vec![
             Val::b(restarting),
             Val::b(rt),
@@ -541,6 +556,7 @@ async fn run_helper_case(l: &[Val]) -> Val {
                 .into_iter()
                 .map(|r| Val::L(r.into_iter().map(Val::I).collect()))
                 .collect()),
+            neg,
         ]));
     }
     Val::L(obs)
